@@ -14,12 +14,13 @@ PC == INSTANCE PropCache WITH MaxMsgs <- 0, Changes <- {},
         sent <- 0, replied <- 0, wire <- 0, chgQ <- 0, rep <- 0, pc <- 0, cache <- 0, ready <- 0, hist <- 0
 
 Rec == ndJsonDeserialize(IOEnv.TRACE)
-VARIABLE l
-Init == l \in 1..Len(Rec)
-Next == UNCHANGED l
+\* TLC does not cache Rec: the record of a line is carried in the state so the file is parsed once
+VARIABLES l, rec
+Init == LET R == Rec IN \E i \in 1..Len(R) : l = i /\ rec = R[i]
+Next == UNCHANGED <<l, rec>>
 
 Report(what, detail, devs) ==
-  PrintT(<<"MISMATCH", ToJson([line |-> l, id |-> Rec[l].id, what |-> what, detail |-> detail, explained_by |-> devs])>>)
+  PrintT(<<"MISMATCH", ToJson([line |-> l, id |-> rec.id, what |-> what, detail |-> detail, explained_by |-> devs])>>)
 
 Live(p) == CASE p = "P" -> 901 [] p = "Q" -> 902 [] p = "U" -> 903 [] OTHER -> 904
 Cached(st, p) == IF p \in PC!Props THEN st.cache[p] ELSE PC!None      \* "R" does not exist
@@ -73,5 +74,5 @@ Check(r) ==
        ELSE LET expl == {d \in PC!KnownDevs : Viol(r, {d}) = {}} IN
             \A v \in v0 : Report(v.what, v.detail, expl)
 
-Inv == Check(Rec[l]) \/ TRUE
+Inv == Check(rec) \/ TRUE
 =============================================================================
